@@ -144,8 +144,57 @@ fn embeddable(src: &str) -> bool {
     || s.contains("arguments") || s.contains("super") || s.contains("new.target") || s.contains("use strict"))
 }
 
+/// an offending construct as the *leftmost* operand of another offending construct of the same rule: both start at the
+/// same position, both must be reported (rule, inner, outer with `$` = inner, the same outer around a neutral operand)
+const SELF_NESTING: &[(&str, &str, &str, &str)] = &[
+  ("eqeqeq", "a == b", "$ == c", "z == c"),
+  ("eqeqeq", "a != b", "$ != c", "z != c"),
+  ("no-compare-neg-zero", "x === -0", "$ === -0", "z === -0"),
+  ("use-isnan", "x == NaN", "$ == NaN", "z == NaN"),
+  ("no-prototype-builtins", "a.hasOwnProperty(b)", "$.hasOwnProperty(c)", "z.hasOwnProperty(c)"),
+  ("no-non-null-assertion", "a!", "$.b!", "z.b!"),
+  ("no-explicit-any", "(a as any)", "$ as any", "z as any"),
+  ("no-await-in-sync-fn", "await a", "$ + await b", "z + await b"),
+  ("no-array-constructor", "new Array(1, 2)", "$.concat(new Array(3, 4))", "z.concat(new Array(3, 4))"),
+  ("no-new-symbol", "new Symbol()", "$ + new Symbol()", "z + new Symbol()"),
+  ("no-eval", "eval(\"a\")", "$ + eval(\"b\")", "z + eval(\"b\")"),
+  ("no-console", "console.log(1)", "$ + console.log(2)", "z + console.log(2)"),
+];
+
+fn self_nesting(out: &mut Out) {
+  for (rule, inner, outer, neutral) in SELF_NESTING {
+    if !all_codes().contains(&rule.to_string()) {
+      continue;
+    }
+    let l = mk_linter(rules_by_codes(&[rule.to_string()]), &Words::default());
+    for wrap in ["{};", "function f() {{ return {}; }}", "x = [{}];", "if ({}) {{}}"] {
+      let mk = |e: &str| wrap.replacen("{}", e, 1).replace("{{", "{").replace("}}", "}");
+      let (si, so, sn) = (mk(inner), mk(&outer.replace('$', inner)), mk(neutral));
+      let at = wrap.find("{}").unwrap_or(0) - wrap[..wrap.find("{}").unwrap_or(0)].matches("{{").count();
+      match (lint(&l, &si, "ts"), lint(&l, &so, "ts"), lint(&l, &sn, "ts")) {
+        (Outcome::Ok(di), Outcome::Ok(d_o), Outcome::Ok(dn)) => {
+          out.eval(&format!("self-nesting|{}|{}", rule, so), true, json!({"rule": rule, "nested": so}));
+          out.count("self-nesting");
+          if di.is_empty() {
+            out.count(&format!("self-nesting-inner-silent:{}", rule));
+            continue;
+          }
+          // every finding of the inner construct keeps its range; the count is inner + outer-around-neutral
+          let ranges = |v: &Vec<D>| -> Vec<(Option<usize>, Option<usize>)> { v.iter().map(|d| (d.start, d.end)).collect() };
+          let missing: Vec<_> = ranges(&di).into_iter().filter(|r| !ranges(&d_o).contains(r)).collect();
+          if !missing.is_empty() || d_o.len() != di.len() + dn.len() {
+            out.found("C08", &format!("hidden:{}:self-nesting", rule), &so, json!({"meta": {"rule": rule, "embedded": so, "construct": si, "hole_at": at}, "inner_alone": di.iter().map(|d| d.json()).collect::<Vec<_>>(), "nested": d_o.iter().map(|d| d.json()).collect::<Vec<_>>(), "outer_around_neutral": dn.len(), "missing_ranges": missing}));
+          }
+        }
+        _ => out.count("self-nesting-does-not-parse"),
+      }
+    }
+  }
+}
+
 pub fn run(args: &Args) {
   let mut out = Out::new(&args.out, "embed");
+  self_nesting(&mut out);
   let mut rng = Rng::new(args.seed ^ 0xE3BED);
   let corpus = crate::d_scan::load_corpus();
   let depth: usize = args.opts.get("depth").and_then(|s| s.parse().ok()).unwrap_or(2);
